@@ -233,7 +233,7 @@ class DeadSession:
 def _make_session(cm, rec2, sid, host, **kw):
     try:
         return cm.SnmpSession(host, **kw)
-    except (OSError, RuntimeError) as e:
+    except Exception as e:  # noqa
         # recorded as a refused request: the trace judge accepts a refusal only when the request really cannot be sent
         name, bases, _ = exc_info(e)
         rec2.emit(dict(ev="Send", sid=sid, op="get", oids=[], names=[], itstart=[], maxrep=bigint(0), exc=name, bases=bases, nwire=0, wire=[], interp=[],
